@@ -11,7 +11,7 @@ def fire_table(name, maxeqs, tag):
     uni = json.load(open(os.path.join(UNIV, name + ".json")))
     insts = [{"sigma": i["sigma"], "rho": i["rho"], "l": i["l"], "r": i["r"]} for i in uni["instances"]]
     defs = {"MCN": uni["N"], "MCTermPool": uni["terms"], "MCEqPool": uni["eqs"], "MCMaxEqs": maxeqs,
-            "MCInsBase": tla_set(uni["base"]), "MCRule": {"l": uni["rule"]["l"], "r": uni["rule"]["r"]}, "MCInstances": insts}
+            "MCInsBase": tla_set(uni["base"]), "MCPatterns": [], "MCRule": {"l": uni["rule"]["l"], "r": uni["rule"]["r"]}, "MCInstances": insts}
     logp, st = run_tlc_root("%s_%s" % (tag, name), "MC_Fire", defs, cfg, workers=4, timeout=3000)
     require_tlc_ok(st, logp, "MC_Fire/" + name)
     us = list(tlcout.tagged_lines(logp, "UNIVERSE"))[0]
@@ -55,6 +55,23 @@ def run_c04(tier):
                    "redundant slot (per the specification) are outside the documented scope and skipped" % maxeqs,
            "exhaustive": True, "tlc": {t[0]: t[3] for t in tabs}, "replay": summaries,
            "states_skipped_redundant": sum(s["states_skipped_redundant"] for s in summaries)}
+    # third: recorded rewriting runs (language A, manual apply_rewrites): every instance matched in the state BEFORE the call is
+    # rewritten by the call (all searchers run before any applier), judged by TraceRewrite.tla
+    bad, panics, st_rw, summ_rw, lines = rw_trace(tier, prop, 3)
+    findings += bad_to_findings(bad, lines, prop) + [f for f in panics if f["prop"] == prop]
+    rwev = [json.loads(l) for l in lines if '"ev":"rewrite"' in l]
+    cov["rewriting_runs"] = {"tlc_trace": st_rw, "recorder": summ_rw, "apply_rewrites_calls": len(rwev),
+                             "calls_in_scope": sum(1 for e in rwev if e.get("in_scope")),
+                             "pre_state_instances_followed": sum(e.get("pre_matches", 0) for e in rwev if e.get("in_scope"))}
+    # second decision procedure: the complete match sets of a pattern pool in every state of the congruence universes
+    import cc
+    mine2, cov2, _tables = cc.collect_cc("C04", tier)
+    findings += mine2
+    cov["states"] += cov2["states"]
+    cov["transitions"] += cov2["transitions"]
+    cov["traces_validated_against_impl"] += cov2["traces_validated_against_impl"]
+    cov["complete_match_sets"] = {"match_sets": cov2.get("match_sets"), "universes": cov2["universes"], "tlc": cov2["tlc"],
+                                  "replay": cov2["replay"]}
     finish(prop, tier, t0, findings, cov, assumptions=[
         "scope as stated by the property: linear binders, no redundant slots (decided per state by the specification's NonRed)",
         "instances are computed by Terms.Inst in TLC (ASSUME InstancesAgree), representation by SlottedCC's closure"])
